@@ -112,7 +112,10 @@ pub fn decode(bytes: &[u8]) -> Case {
     let mut u = Un::new(bytes);
     let mut names = Names::new();
     names.empty_values = true;
-    let cfg = ConvCfg::default();
+    let cfg = ConvCfg {
+        usage_fallback: true,
+        ..ConvCfg::default()
+    };
     let level = gen_conv_level(&mut u, &mut names, &cfg, 1);
     let (sent, expected) = gen_conv_sentence(&mut u, &mut names, &level);
     let mut stats = RenderStats::default();
